@@ -404,11 +404,20 @@ func (p *proxyConn) writeErrorResponse(req *http.Request, err error) error {
 	if res == nil {
 		res = p.errorResponse(req, err)
 	}
+	// The challenge of a 407 generated by this proxy is addressed to the client;
+	// the hop-by-hop response modifier must not strip it.
+	var challenge []string
+	if res.StatusCode == http.StatusProxyAuthRequired {
+		challenge = res.Header.Values("Proxy-Authenticate")
+	}
 	if err := p.modifyResponse(res); err != nil {
 		log.Error(req.Context(), "error modifying error response", "error", err)
 		if !p.WithoutWarning {
 			proxyutil.Warning(res.Header, err)
 		}
+	}
+	if len(challenge) > 0 && len(res.Header.Values("Proxy-Authenticate")) == 0 {
+		res.Header["Proxy-Authenticate"] = challenge
 	}
 	return p.writeResponse(res)
 }
